@@ -21,7 +21,18 @@ func main() {
 	warm := flag.Bool("warm", false, "load everything once (warms the go build cache)")
 	genBaseline := flag.Bool("gen-baseline", false, "write checker/rules/baseline_funcs_gen.go from the current tree (development only)")
 	selftest := flag.String("selftest", "", "run the mutant catalogue of a property (or 'all') against the checker, in memory")
+	sweep := flag.String("sweep", "", "development: mutants.json to apply in memory (with -sweep-out, -from, -to)")
+	sweepOut := flag.String("sweep-out", "", "development: result file of -sweep")
+	from := flag.Int("from", 0, "development: first mutant of -sweep")
+	to := flag.Int("to", 0, "development: last mutant (exclusive) of -sweep")
 	flag.Parse()
+	if *sweep != "" {
+		if err := rules.Sweep(*sweep, *sweepOut, *from, *to); err != nil {
+			fmt.Println("sweep:", err)
+			os.Exit(1)
+		}
+		return
+	}
 	if t := os.Getenv("VERIF_TIER"); t != "" && *tier == "" {
 		*tier = t
 	}
